@@ -2132,12 +2132,16 @@ func (p *Proof) binopVals(fr *Frame, in ssa.Instruction, st *State, op token.Tok
 		case token.ADD:
 			return Scalar{p.strCat(st.Guard, x, y)}
 		case token.LSS:
+			p.strOrderFacts(x, y)
 			return Scalar{strLess(x, y)}
 		case token.GTR:
+			p.strOrderFacts(x, y)
 			return Scalar{strLess(y, x)}
 		case token.LEQ:
+			p.strOrderFacts(x, y)
 			return Scalar{Not(strLess(y, x))}
 		case token.GEQ:
+			p.strOrderFacts(x, y)
 			return Scalar{Not(strLess(x, y))}
 		}
 	case x.Sort == SFloat:
@@ -2400,4 +2404,11 @@ func (p *Proof) funcCodeFact(ref *Term, fn *ssa.Function) {
 		return
 	}
 	p.assume(True(), Eq(funcCodeOf(ref), BVInt(int64(p.eng.pathID("fn:"+relName(fn))), 32)))
+}
+
+// strOrderFacts: the order on strings is a strict total order (what it orders by - bytes -
+// is not modelled): of two strings exactly one of x < y, x == y, y < x holds.
+func (p *Proof) strOrderFacts(x, y *Term) {
+	lt, gt, eq := strLess(x, y), strLess(y, x), Eq(x, y)
+	p.assume(True(), And(Not(And(lt, gt)), Not(And(lt, eq)), Not(And(gt, eq)), Or(lt, gt, eq)))
 }
